@@ -65,7 +65,7 @@ Proof. exact rfc7606_mp. Qed.
    is reported as received.  `_partial`: stated on the attribute collection of the walk; that the routes of such an
    UPDATE are then announced and stored unchanged is tied by the correspondence and the oracle of harness/c08.py. *)
 Theorem C08_discard_class_partial : forall opq s other ab l,
-  plain_sess s -> wfb ab -> tlvs (length ab) ab = Some l ->
+  ip_sess s -> wfb ab -> tlvs (length ab) ab = Some l ->
   forallb (acceptable other s) l = true -> nodup_codes l = true ->
   parse_refuses (parse (length ab) true opq s ab [])
   \/ exists m, parse (length ab) true opq s ab [] = POk m
